@@ -1005,6 +1005,35 @@ def _run_lin(res, item):
                 except Exception as exc:  # noqa: BLE001
                     ctx.case("update", extra, False, nontrivial=nt, field=f"exception_{type(exc).__name__}",
                              observed=str(exc)[:200])
+            # ---------------- (G) carry-over across observed steps: four consecutive steps whose stacks have the SAME total
+            # dimension (3) but different blocks / noise matrices, on one filter object driven directly, and on an owner
+            # whose predictions come back from a worker copy as result objects while its updates run on the owner itself
+            # (what an agent does when only the propagation is farmed out): anything predict / update leave behind that is
+            # not part of the result object, or a block kept because its size still fits, shows from the second step on
+            g_direct, g_mixed = sysm.make_filter(tuning, resample), sysm.make_filter(tuning, resample)
+            for k, comp in enumerate(((2, 1), (1, 2), (3,), (1, 1, 1))):
+                extra = {"sequence": "carry_over", "step": k, "stack": list(comp)}
+                try:
+                    pre = snapshot(g_direct)
+                    t1 = ScenarioTime(pre["time"] + DT)
+                    g_direct.predict(t1)
+                    orc_g = check_predict(ctx, g_direct, pre, extra, True, sub="predict")
+                    worker = pickle.loads(pickle.dumps(g_mixed))
+                    worker.predict(t1)
+                    g_mixed.applyFilterResult(pickle.loads(pickle.dumps(worker.getPredictionResult())))
+                    pre_u = snapshot(g_direct)
+                    stack = sysm.stack(comp)
+                    g_direct.update(stack)
+                    check_measurement_step(ctx, g_direct, pre_u, orc_g, stack, extra, True, forecast_only=False)
+                    g_mixed.update(sysm.stack(comp))
+                    bad = [nm for nm in ("est_x", "est_p", "pred_x", "pred_p", "innov_cvr", "kalman_gain", "r_matrix", "innovation")
+                           if not _same_value(getattr(g_mixed, nm), getattr(g_direct, nm))]
+                    ctx.case("results_apply", extra, not bad, nontrivial=True, field="prediction_by_result_update_on_owner",
+                             observed={"fields_differing": bad})
+                    res.transitions += 2
+                except Exception as exc:  # noqa: BLE001
+                    ctx.case("update", extra, False, nontrivial=True, field=f"exception_{type(exc).__name__}", observed=str(exc)[:200])
+                    break
             # ---------------- (B) every operation sequence up to the depth, as a tree rooted at one prediction
             direct = sysm.make_filter(tuning, resample)
             mirror = sysm.make_filter(tuning, resample)
